@@ -206,8 +206,12 @@ pub fn plan(seed: u64, corpus: &[Input], thorough: bool) -> Plan {
                 roles.push("polluter/same_ident");
             },
             1 | 5 => {
-                // the user edited a target and it is expanded again
-                let k = rng.usize(n_targets);
+                // the user edited a target and it is expanded again (half of the time: the biggest one)
+                let k = if rng.chance(1, 2) {
+                    (0..n_targets).max_by_key(|k| inputs[*k].len()).unwrap_or(0)
+                } else {
+                    rng.usize(n_targets)
+                };
                 match gen::edited_copy(&mut rng, &inputs[k]) {
                     Some(t) => {
                         inputs.push(t);
